@@ -65,6 +65,8 @@ KINDS = [
     ("fence_short_inside", 1, 0, "````\n[f]({code:f^/g.html})\n```\n[g]({code:f^/h.html})\n````"),
     ("fence_info", 0, 0, "```go\n[f]({code:f^/g.html})\n```"),
     ("fence_tilde_bq", 0, 0, "~~~ a`b\n[f]({code:f^/g.html})\n~~~"),
+    ("fence_info_inside", 0, 0, "~~~\n~~~ text\n[f]({code:f^/g.html})\n~~~"),
+    ("fence_bq_info_inside", 0, 0, "```\n````go\n[f]({code:f^/g.html})\n```"),
     ("indented", 1, 0, "Text:\n\n    [f]({code:f^/g.html})"),
     ("html_div", 1, 0, "<div>\n[f]({html:f^/g.html})\n</div>"),
     ("html_script", 1, 0, "<script>\n[f]({html:f^/g.html})\n\n[g]({html:f^/h.html})\n</SCRIPT>"),
@@ -158,7 +160,8 @@ PROPOSED_KNOWN = []   # three of the eight defects found by this check were fixe
 
 
 def consts(ctx):
-    return {"AllLen": 2, "CoreLen": ctx.pick(3, 4), "Excused": set(EXCUSED), "EscLen": ctx.pick(3, 5)}
+    return {"AllLen": 2, "CoreLen": ctx.pick(3, 4), "Excused": set(EXCUSED), "EscLen": ctx.pick(3, 5),
+            "FenceRuns": {3, 4}, "FenceVars": ctx.pick(4, 6), "FenceLen": 3, "QLen": 2, "EscWideLen": ctx.pick(2, 3)}
 
 
 def go_test(ctx, infile, outfile, oracle=False):
